@@ -127,8 +127,8 @@ def run_group(base, harnesses, features, jobs, harness_timeout, mem_gb, tag, unw
     from concurrent.futures import ThreadPoolExecutor
     crate = os.path.join(base, "crate")
     tdir = os.path.join(base, "kt" + ("-" + "-".join(features) if features else ""))
-    plain = [h for h in harnesses if not h.get("unwindset")]
-    special = [h for h in harnesses if h.get("unwindset")]
+    plain = [h for h in harnesses if not (h.get("unwindset") or h.get("cbmc_args"))]
+    special = [h for h in harnesses if h.get("unwindset") or h.get("cbmc_args")]
     res = {}
     log = os.path.join(base, "kani-%s.log" % tag)
     loops = []
@@ -170,14 +170,18 @@ def run_group(base, harnesses, features, jobs, harness_timeout, mem_gb, tag, unw
         if os.path.exists(outjson):
             os.remove(outjson)
         cmd = _base_cmd(tdir, features) + ["--output-format", "terse", "--harness-timeout", "%ds" % harness_timeout,
-                                           "--export-json", outjson, "--exact", "--harness", _harness_arg(h),
-                                           "--cbmc-args", "--unwindset", uws]
+                                           "--export-json", outjson, "--exact", "--harness", _harness_arg(h), "--cbmc-args"]
+        if uws:
+            cmd += ["--unwindset", uws]
+        cmd += h.get("cbmc_args") or []
         rc, out = sh(cmd, crate, timeout=harness_timeout + 600, mem_gb=mem_gb,
                      log=os.path.join(base, "kani-%s-%s.log" % (tag, h["name"])), needle=base)
         if os.path.exists(outjson):
             _parse_results(outjson, res)
             if h["name"] in res:
-                res[h["name"]]["unwindset"] = uws
+                if uws:
+                    res[h["name"]]["unwindset"] = uws
+                res[h["name"]]["cbmc_args"] = h.get("cbmc_args") or []
 
     with ThreadPoolExecutor(max_workers=max(1, jobs)) as ex:
         futs = []
@@ -200,7 +204,7 @@ def run_group(base, harnesses, features, jobs, harness_timeout, mem_gb, tag, unw
 PLAY_RE = re.compile(r"/// Test generated for harness `([^`]*)`[^\n]*\n((?:///[^\n]*\n)*)\s*#\[test\]\s*\nfn (\w+)\(\) \{\s*\n\s*let concrete_vals: Vec<Vec<u8>> = vec!\[(.*?)\n\s*\];", re.S)
 
 
-def playback(base, h, features, mem_gb, timeout, unwindset=None):
+def playback(base, h, features, mem_gb, timeout, unwindset=None, cbmc_args=None):
     """re-run one failing harness with concrete playback; returns list of (what, bytes)"""
     crate = os.path.join(base, "crate")
     tdir = os.path.join(base, "kt" + ("-" + "-".join(features) if features else ""))
@@ -209,8 +213,8 @@ def playback(base, h, features, mem_gb, timeout, unwindset=None):
            h["module"].replace("crate::", "", 1) + "::" + h["name"]]
     if features:
         cmd += ["--features", ",".join(features)]
-    if unwindset:
-        cmd += ["--cbmc-args", "--unwindset", unwindset]
+    if unwindset or cbmc_args:
+        cmd += ["--cbmc-args"] + (["--unwindset", unwindset] if unwindset else []) + list(cbmc_args or [])
     rc, out = sh(cmd, crate, timeout=timeout, mem_gb=mem_gb, log=os.path.join(base, "playback-%s.log" % h["name"]), needle=base)
     tests = []
     for m in PLAY_RE.finditer(out):
